@@ -49,6 +49,21 @@ def dim_spec(t, units, n):
 
 
 def run(ctx):
+    # long arrays: the dimension check does not depend on how many elements an aggregate sees
+    _refused = lambda o: o.get("status") == 1 and not o.get("escaped")
+    _its = []
+    for _n in (1100, 2500):
+        _m = ", ".join(["1 m"] * _n)
+        _its += [(["sum({5, %s})" % _m], _refused, "a plain number among %d lengths is refused by sum" % _n),
+                 (["sum({%s, 5})" % _m], _refused, "a plain number after %d lengths is refused by sum" % _n),
+                 (["mean({%s, 1 s})" % _m], _refused, "a time among %d lengths is refused by mean" % _n),
+                 (["max({%s, 2})" % _m], _refused, "a plain number among %d lengths is refused by max" % _n),
+                 (["sum({1 s, %s})" % _m], _refused, "a time before %d lengths is refused by sum" % _n),
+                 (["sum({%s})" % _m], "Q:I:%d|0,1,0,0,0,0,0,0" % _n, "the sum of %d lengths is a length" % _n),
+                 (["sum({x m : x in 1..%d}) / sum({x s : x in 1..%d})" % (_n, _n)], "Q:I:1|0,1,-1,0,0,0,0,0", "a quotient of two long sums"),
+                 (["prod({%s})" % ", ".join(["1 m"] * 12)], "Q:I:1|0,12,0,0,0,0,0,0", "a product of twelve lengths"),
+                 (["sum({x m : x in 1..%d}) + 1" % _n], _refused, "a long sum of lengths plus a plain number is refused")]
+    C.expect_sessions(ctx["report"], ctx["rundir"], "C03", _its, kind="long-array")
     C.seam_check(ctx["report"], ctx["rundir"], "C03", wrappers=[],
                  pairs=[("3 m^+2", "3 m^2"), ("1 s^+1 + 1 s", "2 s"), ("20000 m^+2 to ha", "2"), ("2 Hz to s^+1", "2 Hz to s"), ("1 s^+1 + 1 Hz", "1 s + 1 Hz"),
                         ("5 m^2 | m", "5 m"), ("6 kg m^2 | m s^2", "6 kg m | s^2"), ("5 m^2 | metre", "5 m"), ("5 m^2 | m + 1", "5 m + 1"), ("5 rad to m^3 | m^2", "5 rad to m"),
